@@ -3,7 +3,8 @@
    given), model/FormatHtml.v, model/FormatIndent.v.  Proofs: proofs/OutStreamProofs.v,
    proofs/FormatReach.v, proofs/FormatProofs.v. *)
 From Emmet Require Import lib.Base model.MarkupConvert model.OutStream model.FormatHtml model.FormatIndent
-     proofs.OutStreamProofs proofs.FormatReach proofs.FormatProofs.
+     proofs.OutStreamProofs proofs.FormatSteps proofs.FormatReach proofs.FormatProofs proofs.FormatChunks
+     proofs.FormatTabstops.
 
 (* SPEC.  [chron o] = the callback invocations of a run in order; [text_of a] = what the
    invocations [a] returned, concatenated; [os_value o] = the final result.
@@ -56,3 +57,63 @@ Proof.
   - eexists (firstn 5 (chron (fs_out (stringify_markup s_html ex_cfg ex_tree)))), _, _.
     vm_compute. repeat split.
 Qed.
+
+(* ------------------------------------------------------------------ tabstop numbering
+   fchunks st      = the callback invocations so far with positions erased (CT text | CF index placeholder)
+   fields_of X     = the (index, placeholder) pairs of the output.field invocations in X, in order
+   no_fields n     = no value of the tree (text or attribute value) contains a ${..} field
+   attr_site c a   = 1 iff attribute a is written, has a name, an empty value and is not boolean
+   leaf_site n     = 1 iff n has no text, no children and is not self-closed
+   sites c n       = sites of n (a named element: its attributes, its leaf site) + sites of its children
+   carets F k      = [(F, ""); (F+1, ""); ...; (F+k-1, "")] *)
+
+(* tabstops_in_order: for ALL trees without explicit fields and ALL option records, the HTML
+   formatter invokes output.field with exactly 1, 2, ..., k in document order, where k = number
+   of empty attribute values + empty leaf elements that are not self-closed. *)
+Theorem tabstops_in_order c children :
+  forallb no_fields children = true ->
+  fields_of (fchunks (html_format c children)) = carets 1 (sites_list c children).
+Proof. exact (tabstops_in_order_lemma c children). Qed.
+Print Assumptions tabstops_in_order.
+
+(* explicit_fields_disjoint, three parts.  [push_tokens c v st] writes one value (text or
+   attribute value) [v]; [tok_fields v] are its explicit fields (index, placeholder) in order;
+   [fs_field st] is the next free tabstop number when the value is written. *)
+
+(* (1) relative numbering inside a value is preserved: each field index is shifted by the same
+   amount, order and placeholders unchanged *)
+Theorem explicit_fields_relative c v st :
+  fields_of (fchunks (push_tokens c v st)) = fields_of (fchunks st) ++ map (shift (fs_field st)) (tok_fields v).
+Proof. exact (value_fields_relative c v st). Qed.
+Print Assumptions explicit_fields_relative.
+
+(* (2) index ranges of successive values are disjoint and increasing: whenever a second value
+   is written at a point where the counter is at least what the first value left, every index
+   of the first is smaller than every index of the second *)
+Theorem explicit_fields_disjoint c v1 v2 st1 st2 i1 n1 i2 n2 :
+  (fs_field (push_tokens c v1 st1) <= fs_field st2)%N ->
+  In (i1, n1) (tok_fields v1) -> In (i2, n2) (tok_fields v2) ->
+  (fs_field st1 + i1 < fs_field st2 + i2)%N.
+Proof. exact (successive_values_disjoint c v1 v2 st1 st2 i1 n1 i2 n2). Qed.
+Print Assumptions explicit_fields_disjoint.
+
+(* (3) ... and that premise holds for every later point of a run: the counter never decreases
+   across an element (any tree, any options), nor across a value *)
+Theorem field_counter_never_decreases c node parent index items st :
+  (fs_field st <= fs_field (html_element c parent node index items st))%N.
+Proof. exact (field_counter_monotone c node parent index items st). Qed.
+Print Assumptions field_counter_never_decreases.
+
+(* Non-vacuity: <a title=""><b></b><c/></a> has two sites; a value with fields ${3} ${1:q}. *)
+Definition ex_tree2 : list anode :=
+  [ANode (Some [97]%N) None None
+         (Some [mkAAttr (Some [116]%N) None VRaw false false false])
+         [ANode (Some [98]%N) None None None [] false; ANode (Some [99]%N) None None None [] true] false].
+Example tabstops_nonvacuous :
+  forallb no_fields ex_tree2 = true /\ sites_list ex_cfg ex_tree2 = 2 /  fields_of (fchunks (html_format ex_cfg ex_tree2)) = [(1, []); (2, [])]%N.
+Proof. vm_compute. repeat split. Qed.
+Example explicit_nonvacuous :
+  let v := [VField 3 []; VStr [32]%N; VField 1 [113]%N] in
+  let st := mkFs os_empty 5 in
+  fields_of (fchunks (push_tokens ex_cfg v st)) = [(8%N, []); (6%N, [113%N])] /\ fs_field (push_tokens ex_cfg v st) = 9%N.
+Proof. vm_compute. split; reflexivity. Qed.
